@@ -39,6 +39,22 @@ Theorem C03_unreadable_untouched : forall outdir old fresh fn lines,
 Proof. exact unreadable_untouched. Qed.
 Print Assumptions C03_unreadable_untouched.
 
+(* ... decided by the model itself from the raw bytes found in the directory: strict UTF-8 (utf8_valid is compared with
+   CPython's decoder on random byte strings on every run) *)
+Theorem C03_undecodable_untouched : forall outdir (dir : string -> option string) fresh fn lines bytes,
+  names_ok (keys fresh) -> slookup fn fresh = Some lines -> dir fn = Some bytes -> utf8_valid bytes = false ->
+  let r := regen_dir outdir dir fresh in
+  slookup fn (fst r) = None /\ slookup (lost_name fn) (fst r) = None /\ ~ In fn (snd r).
+Proof. exact undecodable_untouched. Qed.
+Print Assumptions C03_undecodable_untouched.
+
+Example C03_undecodable_nonvacuous :
+  utf8_valid (bs [99;97;102;233;10]) = false /\ utf8_valid (bs [255;254;117;0]) = false /\ utf8_valid (bs [226;130]) = false /\
+  utf8_valid (bs [237;160;128]) = false /\ utf8_valid (bs [192;175]) = false /\ utf8_valid (bs [244;144;128;128]) = false /\
+  utf8_valid (bs [103;114;195;188;195;159;101;32;228;184;173;32;240;159;152;128;0;10]) = true.
+Proof. repeat split; vm_compute; reflexivity. Qed.
+Print Assumptions C03_undecodable_nonvacuous.
+
 Definition ex_old : list (item string) :=
   [Pair (bs [47;47;123;123;123;85;83;69;82;95;88;10]) (bs [47;47;123;123;123;85;83;69;82;95;88;10]);
    Pair (bs [35;123;123;123;85;83;69;82;95;89;10]) (bs [35;123;123;123;85;83;69;82;95;89;10]);
